@@ -118,6 +118,20 @@ pub fn h_eq_iter<const N: usize, S: Nd>(nd: &mut S) -> Out {
     let c: ArrayBuf<N> = it.collect();
     check!(c == b1, "C18: from_iter does not yield exactly the iterated bytes");
     check!(c.len() == n1, "C18: from_iter length");
+    // an iterator of at most N bytes whose size hint is loose (upper bound larger than N, lower bound 0)
+    let big: [u8; 12] = nd.arr();
+    let keep = nd.u8();
+    let c2: ArrayBuf<N> = big.iter().copied().enumerate().filter(|(i, _)| *i < N && (keep >> (*i % 8)) & 1 == 1).map(|(_, b)| b).collect();
+    let mut cnt = 0;
+    let mut i = 0;
+    while i < 12 {
+        if i < N && (keep >> (i % 8)) & 1 == 1 {
+            check!(c2[cnt] == big[i], "C18: from_iter (loose size hint) does not yield exactly the iterated bytes");
+            cnt += 1;
+        }
+        i += 1;
+    }
+    check!(c2.len() == cnt, "C18: from_iter (loose size hint) length");
     Out::Pass
 }
 
@@ -273,9 +287,9 @@ proof!(c18_step_1, 5, h_c18_step_1);
 proof!(c18_step_2, 6, h_c18_step_2);
 proof!(c18_step_5, 9, h_c18_step_5);
 proof!(c18_step_8, 12, h_c18_step_8);
-proof!(c18_eq_0, 3, h_c18_eq_0);
-proof!(c18_eq_1, 4, h_c18_eq_1);
-proof!(c18_eq_5, 8, h_c18_eq_5);
+proof!(c18_eq_0, 14, h_c18_eq_0);
+proof!(c18_eq_1, 14, h_c18_eq_1);
+proof!(c18_eq_5, 14, h_c18_eq_5);
 proof!(c18_vec, 8, h_vec);
 
 pub fn register(v: &mut Vec<(&'static str, fn(&mut Replay) -> Out)>) {
